@@ -128,7 +128,16 @@ func c02Key(min c02Case, oi, ov c02Outcome, vmSet, interpSet map[string]bool) st
 	}
 	// a statement kind the compiler drops
 	if c02HasValidation(body) && cv == "ok" && ci != "ok" {
-		return "validation-statement-ignored-by-vm/interp=" + ci + ",vm=ok"
+		callee := "unknown-to-both-engines"
+		for _, st := range body {
+			if v, ok := st.(ast.ValidationStatement); ok {
+				n := v.Call.Name
+				if userFns[n] || interpSet[n] || interpSet[n[strings.LastIndex(n, ".")+1:]] {
+					callee = "known-to-interpreter"
+				}
+			}
+		}
+		return "validation-statement-ignored-by-vm/callee-" + callee + "/interp=" + ci + ",vm=ok"
 	}
 	// calls the VM cannot resolve: the compiler emits OpCall for any name
 	if cv == "fail" && ci != "fail" && ci != "panic" && ci != "hang" {
@@ -150,6 +159,29 @@ func c02Key(min c02Case, oi, ov c02Outcome, vmSet, interpSet map[string]bool) st
 			}
 		}
 	}
+	// causes named by the engines' own diagnostics (error texts are never part of
+	// the oracle; here they only attribute a disagreement to a call site).  A case
+	// found at HTTP level carries no texts: fetch them from the engine-level run.
+	ei, ev := oi.Err, ov.Err
+	if ei == "" && ev == "" && ci != "hang" && cv != "hang" {
+		if serve, di, dv := c02RunEngine(min.mod, min.route, min.req); serve == c02Both && di.coarse() == ci && dv.coarse() == cv {
+			ei, ev = di.Err, dv.Err
+		}
+	}
+	switch {
+	case ci == "fail" && cv == "ok" && strings.Contains(ei, "cannot compare string and string"):
+		return "string-ordering-comparison/" + pair
+	case ci == "ok" && cv == "fail" && strings.Contains(ev, "field not found:"):
+		return "missing-field-read/" + pair
+	case ci == "fail" && cv == "ok" && strings.Contains(ei, "not found in object"):
+		return "missing-key-index/" + pair
+	case ci == "fail" && cv == "ok" && strings.Contains(ei, "await requires a Future"):
+		return "await-of-non-future/interp=fail,vm=value"
+	}
+	// the VM's equality distinguishes 1 from 1.0
+	if site := c02IntFloatEqSite(body); site != "" && ci == cv && ci != "fail" {
+		return "vm-equality-distinguishes-int-from-float/" + site
+	}
 	// the declared return type is checked by the interpreter only
 	if min.route.ReturnType != nil && ci == "fail" && cv == "ok" {
 		return "return-type-checked-by-interpreter-only"
@@ -157,6 +189,10 @@ func c02Key(min c02Case, oi, ov c02Outcome, vmSet, interpSet map[string]bool) st
 	// no return executed: the interpreter answers with the value of the last statement
 	if !c02HasReturn(body) && len(body) > 0 && ci == "ok" && cv == "ok" && ov.Body == "null" && trivialReq {
 		return "no-return/interp=last-statement-value,vm=null"
+	}
+	// the same inside an async block: the future resolves to the block's last statement value
+	if c02AsyncWithoutReturn(body) && ci == "ok" && cv == "ok" && ov.Body == "null" && trivialReq {
+		return "no-return/async-block/interp=last-statement-value,vm=null"
 	}
 	// && / || : the VM evaluates (and type-checks) the right operand the interpreter skips
 	if ops := c02LogicOps(body); len(ops) == 1 && ci == "ok" && cv == "fail" && oi.kind() == "BOOL" {
@@ -301,4 +337,78 @@ func c02ForClobbers(b []ast.Statement, bound map[string]bool) bool {
 		}
 	}
 	return false
+}
+
+// c02IntFloatEqSite finds an equality test between an int literal and a float
+// literal: the operator ==/!=, a literal pattern of a match, a case of a switch.
+func c02IntFloatEqSite(b []ast.Statement) string {
+	numKind := func(e ast.Expr) string {
+		if l, ok := e.(ast.LiteralExpr); ok {
+			switch l.Value.(type) {
+			case ast.IntLiteral:
+				return "i"
+			case ast.FloatLiteral:
+				return "f"
+			}
+		}
+		return ""
+	}
+	mixed := func(a, b string) bool { return a != "" && b != "" && a != b }
+	site := ""
+	set := func(s string) {
+		if site == "" {
+			site = s
+		}
+	}
+	c02MapStmts(b, func(e ast.Expr) ast.Expr {
+		switch v := e.(type) {
+		case ast.BinaryOpExpr:
+			if (v.Op == ast.Eq || v.Op == ast.Ne) && mixed(numKind(v.Left), numKind(v.Right)) {
+				set("operator")
+			}
+		case ast.MatchExpr:
+			for _, c := range v.Cases {
+				if lp, ok := c.Pattern.(ast.LiteralPattern); ok && mixed(numKind(v.Value), numKind(ast.LiteralExpr{Value: lp.Value})) {
+					set("match-literal-pattern")
+				}
+			}
+		}
+		return e
+	})
+	var walk func(b []ast.Statement)
+	walk = func(b []ast.Statement) {
+		for _, s := range b {
+			switch x := s.(type) {
+			case ast.SwitchStatement:
+				for _, c := range x.Cases {
+					if mixed(numKind(x.Value), numKind(c.Value)) {
+						set("switch-case")
+					}
+					walk(c.Body)
+				}
+				walk(x.Default)
+			case ast.IfStatement:
+				walk(x.ThenBlock)
+				walk(x.ElseBlock)
+			case ast.WhileStatement:
+				walk(x.Body)
+			case ast.ForStatement:
+				walk(x.Body)
+			}
+		}
+	}
+	walk(b)
+	return site
+}
+
+// c02AsyncWithoutReturn: is there an async block whose body executes no return?
+func c02AsyncWithoutReturn(b []ast.Statement) bool {
+	found := false
+	c02MapStmts(b, func(e ast.Expr) ast.Expr {
+		if a, ok := e.(ast.AsyncExpr); ok && len(a.Body) > 0 && !c02HasReturn(a.Body) {
+			found = true
+		}
+		return e
+	})
+	return found
 }
